@@ -27,16 +27,15 @@ S_HEADER = T_HEADER.replace("From Splinkv Require Import Base.TV Model.Scoring."
                             "From Splinkv Require Import Base.TV Model.Blocking Model.Scoring Model.EntryPoints.") + """
 Fixpoint all2 {A B} (f : A -> B -> bool) (l : list A) (l' : list B) : bool :=
   match l, l' with [] , [] => true | x :: t, y :: t' => f x y && all2 f t t' | _, _ => false end.
-Definition onx_eqb (a b : option nx) : bool :=
-  match a, b with Some x, Some y => nx_eqb x y | None, None => true | _, _ => false end.
 (* one captured scoring pipeline: phase (0 predict, 1 compare_two_records, 2 realtime, 3 find_matches,
    4 missing edges), its t_case, the outer filter over the predict stage, the anti-join if present *)
 Definition s_entry := (nat * t_case * option (cmpop * Q) * option (option (jbx * jbx)))%type.
-Definition same_scoring (a b : t_case) : bool :=
-  match a, b with (_, _, _, g, bs, ts, f), (_, _, _, g', bs', ts', f') =>
-    all2 nx_eqb g g' && all2 nx_eqb bs bs' && all2 onx_eqb ts ts'
-    && nx_eqb (f_weight_arg f) (f_weight_arg f') && nx_eqb (f_prob f) (f_prob f')
-  end.
+(* the SQL-shaped model of one entry point (Model/EntryPoints.v pipeline) built from its extracted skeletons *)
+Definition pipeline_of (a : t_case) : pipeline :=
+  match a with (_, _, _, g, bs, ts, f) =>
+    {| pl_gammas := g; pl_bfs := bs; pl_tfs := ts; pl_weight := f_weight_arg f; pl_prob := f_prob f |} end.
+(* hypothesis of C10_entry_point_sql_agrees, evaluated per run: entry point's pipeline vs predict()'s *)
+Definition same_scoring (predict ep : t_case) : bool := pipeline_eqb (pipeline_of ep) (pipeline_of predict).
 (* entries, find_matches thresholds, predictions supplied, exact (dyadic parameters: literals comparable with the generators) *)
 Definition s_case := (list s_entry * list Q * bool * bool)%type.
 (* threshold clause of the predict stage alone (parameters whose float quotient m/u is not exact) *)
@@ -329,10 +328,43 @@ def route_stage(ctx: Ctx):
     ctx.discharged += (len(terms) - len(bad)) if not errs else 0
     ctx.cov["tf_route_obligations"] = len(terms)
     ctx.cov.setdefault("translated_sources", {})["splink/internals/term_frequencies.py"] = git_blob(REPO / "splink/internals/term_frequencies.py")
-    if bad or errs:
+    # the generator as a FUNCTION of the cache state, regenerated into coq/gen/C10_tfjoin_gen.v; Coq decides that it is
+    # route_priority on all eight states and instantiates C10_adhoc_tf_by_cache_state with it
+    table = {}
+    for m in metas:
+        table.setdefault((m["supplied"], m["tf_table_cached"], m["concat_with_tf_cached"]), set()).add(m["branch_in_sql"])
+    states = [(a, b, c) for a in (True, False) for b in (True, False) for c in (True, False)]
+    consistent = all(len(table.get(st, ())) == 1 for st in states)
+    ctx.obligation("the TF source of an ad-hoc column depends only on (supplied, tf table cached, concat table cached)", consistent,
+                   str({str(k): sorted(v) for k, v in table.items() if len(v) != 1}))
+    gen_ok = False
+    if consistent:
+        rows = "\n".join(f"  | {coq_bool(a)}, {coq_bool(b)}, {coq_bool(c)} => {next(iter(table[(a, b, c)]))}" for a, b, c in states)
+        gen = ("(* GENERATED on every run by harness/c10.py route_stage from the SQL emitted by\n"
+               "   splink/internals/term_frequencies.py:_join_new_table_to_df_concat_with_tf_sql - do not edit *)\n"
+               "From Coq Require Import List Bool QArith.\n"
+               "From Splinkv Require Import Base.TV Model.Blocking Model.Scoring Model.EntryPoints.\n"
+               "Definition tf_join_source (supplied tf_table_cached concat_cached : bool) : route_kind :=\n"
+               "  match supplied, tf_table_cached, concat_cached with\n" + rows + "\n  end.\n")
+        ok1, out1 = ctx.coqc_text("C10_tfjoin_gen", gen)
+        lem = ("From Coq Require Import List Bool QArith.\n"
+               "From Splinkv Require Import Base.TV Model.Blocking Model.Scoring Model.EntryPoints Proofs.EntryPointsP.\n"
+               "From SplinkGen Require Import C10_tfjoin_gen.\n"
+               "Lemma tf_join_source_is_route_priority : forall s t c, tf_join_source s t c = route_priority s t c.\n"
+               "Proof. intros [] [] []; reflexivity. Qed.\n"
+               "Definition adhoc_tf_of_generated_join (rec V : Type) veqb (value : nat -> rec -> option V) D :=\n"
+               "  adhoc_tf_by_cache_state rec V veqb value D tf_join_source tf_join_source_is_route_priority.\n"
+               "Print Assumptions tf_join_source_is_route_priority.\nPrint Assumptions adhoc_tf_of_generated_join.\n")
+        ok2, out2 = ctx.coqc_text("C10_tfjoin_lemma", lem) if ok1 else (False, out1)
+        gen_ok = ok1 and ok2 and out2.count("Closed under the global context") == 2
+        ctx.obligation("tf_join_source_is_route_priority (regenerated TF-join source function = route_priority on all 8 cache states)",
+                       gen_ok, (out1 + out2)[-1200:])
+    if bad or errs or not consistent or not gen_ok:
         ctx.violation("TF lookup priority for ad-hoc records differs from the model (own tf_ column, cached tf table, "
                       "select distinct from the cached concat table, NULL)",
-                      {"broken": "TF route obligation C10_route", "failing_states": [metas[i] for i in bad[:6]], "errors": errs[:2]},
+                      {"broken": "TF route obligation C10_route / tf_join_source_is_route_priority",
+                       "failing_states": [metas[i] for i in bad[:6]],
+                       "generated_table": {str(k): sorted(v) for k, v in table.items()}, "errors": errs[:2]},
                       {"skeleton": True, "tf_route": True}, found_input=False)
 
 
